@@ -14,8 +14,17 @@ RULE = ("every case drives the real MockExecution (one clone per worker task) ag
         "of the cases somewhere in the last 40 % of the history; 3 % of the calls address a busy or non-existent worker (both sides answer `bad-op`); 1 % of the "
         "cases call MockExchange::cancel_order on the struct (unimplemented!). Thorough additionally enumerates every sequence of length <= 4 over 13 "
         "operation symbols (two concurrent workers, accepted and rejected orders, snapshot, cancel, adv 1 / 2, exchange off / on / stop, abandon, sub, poll) "
-        "on a configuration with one configured open and one configured cancelled order, latency 2, capacity 4 (30 941 cases). 10 committed corpus cases "
-        "(corpus/C08C) pin the edge behaviours. Compared per operation: every completed call (worker, call number, elapsed virtual ms, response class, echo, "
+        "on a configuration with one configured open and one configured cancelled order, latency 2, capacity 4 (30 941 cases). 1 % of the random cases (both "
+        "tiers) are LONG BURSTS on a big channel (capacity 128 / 129 / 200 / 256 = builder.rs:96, 64 .. capacity/2+20 accepted orders, one subscriber polled "
+        "only when 128 .. capacity+40 notifications are waiting - all of them in ONE poll, or Lagged beyond the capacity -, one that keeps up, one polled at "
+        "the end); 3 % of the cases start with the client clock within 120 ms of chrono's largest DateTime<Utc> (8210266876799999 ms) so that "
+        "update_time_exchange's `checked_add_signed(latency/2).unwrap_or(time_request)` falls back to the request time. A `clock` / `trades since` value "
+        "outside chrono's range [-8334601228800000, 8210266876799999] ms is no DateTime<Utc>: not an input, `bad-op` on both sides. 24 committed corpus cases "
+        "(corpus/C08C: A1_edges 10, A2_review 14 from the theorem review - the clock fallback at the end of the range with fills / configured orders / trade "
+        "queries, latency/2 alone past the range, the range ends, capacity 256 with 129 / 130 / exactly 256 / 258 notifications behind, capacity 200 and 129 "
+        "rounding up, capacity 1 vs 2 at the first fill, a panicking open_order, instrument indices of six and seven digits) pin the edge behaviours. `poll` "
+        "drains the real BroadcastStream under `tokio::task::unconstrained` until it is pending or has ended (tokio's cooperative budget would otherwise "
+        "answer Pending after 128 values although more are waiting - a scheduling artefact, not part of the protocol). Compared per operation: every completed call (worker, call number, elapsed virtual ms, response class, echo, "
         "order id / fill / exchange time or error kind with asset and amounts, balances with time stamps, instrument groups in the order returned with their "
         "orders, open orders, trades), the events handed to a polled subscriber and whether its stream ended, virtual time, and which worker waits on which "
         "call. A case is distinct by the SHA-1 of its op lines and non-trivial when the implementation's observation blocks differ at least once")
@@ -38,6 +47,16 @@ ASSUMPTIONS = [
     "holds next_power_of_two(n) values and a receiver more than that behind gets Lagged; a Sender clone held by a sleeping notification task keeps the "
     "channel open; the client's own `event_rx` keeps one receiver alive so `send` never fails",
     "the client's clock function is an injected cell set by `clock <t>`; tracing output and serde / derive impls are not modelled",
+    "time: the protocol is observed in whole milliseconds (`timestamp_millis`); the client clock and every `since` lie in chrono's DateTime<Utc> range "
+    "[-8334601228800000, 8210266876799999] ms (there is no other DateTime<Utc>; the harness and the driver answer `bad-op` outside). Inside that range "
+    "NOTHING is assumed: `time_request + latency/2` past the end is modelled and specified as the code does it (`stampTime` / `Spec.exchTime`: the request "
+    "time itself; chrono 0.4.45: `checked_add_signed` fails exactly when the sum exceeds MAX_UTC, `TimeDelta::milliseconds((u64/2) as i64)` never panics). "
+    "Configured order times (`ord … O <id> <time>`) must be in range (harness `unwrap`s)",
+    "`poll` is observed with the stream polled under `tokio::task::unconstrained` (the cooperative budget of 128 per task poll is a scheduling artefact: "
+    "a budget-limited consumer is handed the rest when it is polled again, which the model's atomic `poll` = 'until pending or ended' abstracts); the "
+    "exchange task, the workers and the latency tasks run under the normal budget (the harness yields 16 times after every operation)",
+    "the C08 model file (Model/MockExchange.lean) stamps `t + latency/2` unconditionally and is NOT edited here: `XState.step` feeds it the request time "
+    "`ledgerTime latency t` (= t in range, t - latency/2 past the end) so that its stamp is the code's; C08's own check keeps its unconditional stamp",
 ]
 SOURCE_FILES = ["barter-execution/src/client/mock/mod.rs", "barter-execution/src/exchange/mock/request.rs",
                 "barter-execution/src/exchange/mock/mod.rs", "barter-execution/src/exchange/mock/account.rs",
@@ -63,31 +82,57 @@ TECHNIQUE = ("Lean 4: the C08 exchange model extended by the configured order ma
              "subscriber segments) kept by every operation, a tracking invariant for promptness, and a simulation with a history-only specification machine "
              "(no exchange state, no timers, no channel buffer) proved operation by operation and over whole histories; correspondence of model and specification "
              "with the real MockExecution + MockExchange::run under a paused tokio clock")
-LEVEL_TEXT = ("Proof (sub-check of C08). lean/BarterModel/Props/C08C.lean, 38 theorems, all for unbounded histories / arbitrary configurations, none `_partial`. EXCHANGE WITH "
-              "CONFIGURED ORDERS: ledger_is_C08 (the ledger part is the C08 exchange step by step and over histories); orders_never_change (market orders never rest: "
-              "cancelled orders untouched, open orders keep all but the time stamp, for every history); update_time_stamps / open_orders_carry_last_request_time "
-              "(exchange time t + latency/2 on the clock, every balance and every open order, not on cancelled ones; the LAST request's time, also backwards); "
-              "init_ignores_filing, init_keeps_configured_orders (with distinct cids exactly the configured open / cancelled orders, listed by cid; other states "
-              "dropped), cid_collision_last_wins + cid_collision_loses_an_order (maps keyed by cid ALONE: an order on another instrument with the same cid is lost), "
+LEVEL_TEXT = ("Proof (sub-check of C08). lean/BarterModel/Props/C08C.lean, 51 theorems (44 general statements for unbounded histories / arbitrary configurations, 7 closed "
+              "WITNESSES at excluded points; none `_partial`). EXCHANGE WITH CONFIGURED ORDERS: ledger_is_C08 (conjunct 3: over whole histories the ledger part is the "
+              "C08 exchange run on the same requests at their ledger times) + ledger_time_cases + ledger_is_C08_in_range (in chrono's range: on the very same requests) "
+              "+ witness ledger_differs_past_max; orders_never_change (market orders never rest: cancelled orders untouched, open orders keep all but the time stamp, "
+              "for every history); EXCHANGE TIME exchange_time_cases (t + latency/2 if that is <= 8210266876799999 ms = chrono's MAX_UTC, else t ITSELF - "
+              "update_time_exchange's `unwrap_or(time_request)`; never before t, never past the range) + witness exchange_time_falls_back_at_max (one millisecond "
+              "decides) + spec_exchange_time (the separately written Spec.exchTime is the same function); update_time_stamps (that time on the exchange clock and on "
+              "every balance - through the C08 ledger -, not on cancelled orders) / open_orders_carry_last_request_time (the LAST request's exchange time, also "
+              "backwards) with their `_in_range` forms (= the statements before the fallback was modelled, now with the hypothesis) and witness "
+              "open_order_time_falls_back; init_ignores_filing, init_keeps_configured_orders (with distinct cids exactly the configured open / cancelled orders, "
+              "listed by cid; other states dropped), cid_collision_loses_an_order (maps keyed by cid ALONE: an order on another instrument with the same cid is lost), "
               "fresh_id_collides_with_configured_id; snapshot_groups / instrument_listed_iff_has_order / snapshot_groups_eq_spec (instruments strictly ascending, each "
               "once, a group = exactly that instrument's orders stably, never empty; instruments without orders - configured or filed empty - are not listed; the "
               "grouping is unique); cancel_request_dropped; answers_refine_spec + configured_orders_reported_forever (after ANY history every response conforms to "
-              "the history-only answer - ledger = C08 spec, configured orders restamped, groups - and exactly that answer's notifications are broadcast). PROTOCOL, "
-              "for every reachable state of client + channels + tasks (any interleaving of calls from several workers, abandoned calls, the exchange task descheduled "
-              "/ scheduled / aborted, virtual time, subscriptions, polls): exchange_state_is_run; requests_seen_in_send_order (FIFO: processed ++ queued ++ lost = "
-              "sent); call_stamps_clock / request_carries_callers_clock (the stamp is the client clock at the call, however late the exchange gets to it); "
-              "response_is_answer_to_own_request (NO CROSS-TALK: a returned response is the exchange's response to that worker's own request in the state after the "
-              "requests processed before, conforms to the spec, arrives >= latency after the call, elapsed measured from the call); offline_only_if_cancel_or_gone; "
-              "nothing_overdue, response_task_is_for_its_request; notifications_are_balance_then_fill, account_stream_is_fills_in_order (channel = notifications of the "
-              "requests seen >= one latency ago, in processing order; channel ++ in flight = everything produced); subscriber_sees_contiguous_segment (a late subscriber "
-              "misses exactly what was sent before), subscription_starts_at_the_tail, poll_outcome (Lagged beyond the capacity ends the stream and hands over nothing), "
-              "capacity_is_next_power_of_two (least power of two >= n, proved); gone_exchange_stays_gone, call_on_gone_exchange_fails_at_once (elapsed 0), "
+              "the history-only answer - ledger = C08 spec, configured orders restamped with Spec.exchTime, groups - and exactly that answer's notifications are "
+              "broadcast). PROTOCOL, for every reachable state of client + channels + tasks (any interleaving of calls from several workers, abandoned calls, the "
+              "exchange task descheduled / scheduled / aborted, virtual time, subscriptions, polls): exchange_never_dies (well-formed configuration, NO hypothesis "
+              "on the cids: the exchange task exists after every history without `exch stop`) + exchange_state_is_run (while it exists its state is the initial "
+              "exchange run over the processed requests, well formed) + witness ill_formed_configuration_kills_exchange (outside the hypothesis open_order panics: "
+              "task gone, every call offline at once); requests_seen_in_send_order (FIFO: processed ++ queued ++ lost = sent); request_carries_callers_clock (the "
+              "stamp is the client clock at the call, however late the exchange gets to it); response_is_to_own_request (NO CROSS-TALK from well-formedness alone: a "
+              "returned response is the exchange's response to that worker's own request in the state after the requests processed before, arrives >= latency after "
+              "the call, elapsed measured from the call) and its corollary response_is_answer_to_own_request (with distinct cids it conforms to the spec); "
+              "offline_only_if_cancel_or_gone; nothing_overdue, response_task_is_for_its_request; notifications_are_balance_then_fill, "
+              "account_stream_is_fills_in_order (channel = notifications of the requests seen >= one latency ago, in processing order; channel ++ in flight = "
+              "everything produced); subscriber_sees_contiguous_segment (a late subscriber misses exactly what was sent before); capacity_is_next_power_of_two "
+              "(conjuncts 2-3: >= n and the LEAST such power of two) + witness capacity_one_loses_stream_at_first_fill (capacity 1 < the two notifications of a fill: "
+              "Lagged at the first poll, nothing delivered; capacity 2 delivers both); gone_exchange_stays_gone, call_on_gone_exchange_fails_at_once (elapsed 0), "
               "abort_fails_waiting_calls, abandoned_call_is_invisible (a dropped receiver changes nothing else). REFINEMENT: no_completion_withheld (promptness), "
               "stream_refines_spec, protocol_step_refines_spec (every operation from every reachable state: abstraction of the new state = the specification's new "
               "state, same poll observation, completions match one to one with conforming responses; impossible iff impossible), protocol_refines_spec (whole "
-              "histories). Tied to the code on every run by executing the same operation histories against the real MockExecution / MockExchange.")
+              "histories). DEFINITIONAL / BOOKKEEPING (in the file for reference, not results): ledger_is_C08 conjuncts 1-2 and the open-order part of "
+              "update_time_stamps (the definition of XState.step read back), capacity_is_next_power_of_two conjunct 1, poll_outcome (the three cases of Sys.drain), "
+              "call_stamps_clock (one unfolding of Sys.call), subscription_starts_at_the_tail (Sys.step writes the subscriber down; content: settle leaves "
+              "subscribers alone), cid_collision_last_wins (a generic insertKey fact), reach_cfg. Tied to the code on every run by executing the same operation "
+              "histories against the real MockExecution / MockExchange.")
 LEVEL_NOTE = ("Trusted: Lean kernel; axioms propext/Classical.choice/Quot.sound only; the hand-written model incl. its reading of tokio's mpsc / oneshot / broadcast / "
-              "timer semantics (sampled correspondence: 600 quick / 12 000 random + 30 941 enumerated + 10 corpus cases thorough; 14 hand mutants of the client, the "
-              "dispatch loop, account.rs and the snapshot code are all caught); harness (gating wrapper, worker tasks, 16 yields per operation) and driver. Hypotheses: "
-              "well-formed configuration (C08), distinct client order ids among the configured open resp. cancelled orders. Outside: Decimal rounding / overflow, "
-              "multi-threaded runtimes (operations are atomic), wall-clock time, the `cancel_orders` / `open_orders` FuturesUnordered helpers of the trait.")
+              "timer semantics and of chrono's DateTime range (sampled correspondence: 600 quick / 12 000 random + 30 941 enumerated + 24 corpus cases thorough); "
+              "harness (gating wrapper, worker tasks, 16 yields per operation, poll under tokio::task::unconstrained) and driver. Mutants: ONE hand mutant of C08C's "
+              "own is committed and re-run by tools/mutant.sh: mutants/C08C_time_overflow_clamps_to_max.patch (`unwrap_or(time_request)` -> "
+              "`unwrap_or(DateTime::MAX_UTC)`; caught at quick tier by corpus and random cases: 3 correspondence disagreements, 7 oracle failures, signatures clause=bal/op=adv on corpus/A2_review.ops:max_clock_review_witness and clause=open/op=adv on huge_latency_keeps_request_time); the mutants of the client, the dispatch "
+              "loop, account.rs and the snapshot code that the check was developed against were run ad hoc and are NOT archived - do not count them. Hypotheses: "
+              "well-formed configuration (C08) for every theorem about reachable states; distinct client order ids among the configured open resp. cancelled orders "
+              "ONLY where a statement mentions the specification (Conforms / abs / Spec.*). CORRESPONDENCE-ONLY KEYS (impl vs model, the spec does not print or "
+              "constrain them): `echo` / `cecho` (the request echoed in the response), the rejection reason `err kind|instrument|insufficient …` (the spec says "
+              "`resp rejected` only: Conforms (.rejected _) .rejected := True), `resp mismatch`, and everything on ill-formed or cid-colliding configurations (spec "
+              "mode prints nothing there). The spec's `ev` / `stream` lines come from Spec.SSys.drain over Spec.SSys.sent (the notifications DERIVED from the "
+              "requests seen) and Spec.SSys.closed; the lag / close RULE of drain (more than the capacity behind -> ended with nothing; else everything since) is the "
+              "same three-line formula as the model's Sys.drain - it is tokio's broadcast semantics, not documented intent, and is tied to the code by "
+              "correspondence (now also for 129..256+ values behind). NO THEOREM for: the protocol on cid-colliding configurations (only the no-cross-talk / FIFO / "
+              "stream theorems, which do not need distinct cids, apply) and on ill-formed ones beyond the witness; configured order ids vs exchange ids beyond "
+              "fresh_id_collides_with_configured_id. Outside: Decimal rounding / overflow, multi-threaded runtimes (operations are atomic), wall-clock time, "
+              "sub-millisecond time stamps, tokio's cooperative budget inside a consumer's poll loop, the `cancel_orders` / `open_orders` FuturesUnordered helpers "
+              "of the trait.")
